@@ -4,6 +4,7 @@ import XtModel.Props.C09
 import XtModel.Props.C11
 import XtModel.Props.Json
 import XtModel.Props.C18
+import XtModel.Props.C04Sites
 
 /-!
 # C04 — Totality: no panic, abort, stack overflow or hang on any input
@@ -60,5 +61,6 @@ theorem detect_total (m j y t : Xt.Detect.Trial) :
 
 #print axioms Xt.Props.C18.no_panic_msgsize
 #print axioms Xt.Props.C18.recursion_bounded
+#print axioms Xt.Props.C04Sites.sites_covered_library
 
 end Xt.Props.C04
